@@ -1,3 +1,5 @@
+EXTRACT_DEPS = ['BotLine.vo']
+
 PROP = dict(
     model_args=[],
     model_needs=['c10', 'c11', 'c12', 'c17'],
